@@ -17,6 +17,7 @@ FAIL = {
     'C11': ('header', 'rows', 'order', 'roundtrip', 'accept', 'byname', 'panic', 'no-result'),
     'C12': ('panic',),
     'C19': ('member', 'panic'),
+    'C14': ('nodes', 'edges', 'readback', 'graph', 'panic'),
     'C13': ('history', 'handle', 'sharing', 'result', 'no-result'),
 }
 
@@ -79,6 +80,8 @@ PROPS = {
     'C13': dict(lint='c13', suites=[dict(suite='hist', parts=[], profile='release', exhaustive=True,
                              rule='hist: all 1884 operation sequences of length <=3 over a 12-operation alphabet acting on the two latest handles (var, not, and, or, xor, exists, model, retain, mk_choice, clean, counting) in one environment, plus seeded random histories (100 x 100 operations; thorough 2000 x 300) over all public operations incl. fp, with operands drawn from recent and from old handles; after EVERY step: the step re-run in a fresh environment gives the identical result, every earlier handle re-serialises to its recorded text, every node reachable from every handle is pointer-identical to the unique table entry for its structure, both leaves present, every key equals its value. heap: random sequences of direct mk_choice / mk_const calls on earlier results: pointer-equality pattern and table size against the Heap model'),
                         bdd(['mixed'], exhaustive=False)]),
+    'C14': dict(suites=[dict(suite='dot', parts=[], profile='release', exhaustive=True,
+                             rule='dotbdd: BDDGraph DOT text of all 256 functions over two variable triples x filters Any/True/False and of a stride of the 65536 four-variable functions (thorough: all), parsed back: every node id is replaced by the structure it roots through its T/F edges (a missing edge leads to the leaf the filter hides), node set and edge set compared with dot_nodes / dot_edges of the model, plus flags for an id declared twice, two ids rooting the same structure, an undeclared edge end; dotnamed: the same for evaluated random formulas over names needing escaping (quote, non-ASCII); dottree: SymbolicParseTree DOT text of 18 hand-picked formulas (every node kind, repeated sub-terms) and random formulas, read back as terms from labels and ordered edge labels: node set, edge set and the term rooted at the unique parent-less node compared with the parsed tree')]),
     'C03': dict(suites=[bdd(['conn'])]),
     'C04': dict(suites=[bdd(['quant'])]),
     'C05': dict(suites=[bdd(['count']), text(['evalc'])]),
@@ -165,3 +168,8 @@ _t('C19', 'Theorems: every operation of the (repaired) BDDSet state machine on t
 _t('C13', 'Theorems about the unique-table ADT (cells + association table): for EVERY finite sequence of mk_choice / mk_const calls whose pointer arguments were handed out earlier, the table invariant holds (keys are the structures of their values, keys pairwise distinct, children of table nodes are table nodes, both leaves present, acyclic), every old pointer keeps its structure (C13_histories), pointer equality coincides with structural equality on handed-out pointers (C13_sharing), and mk_choice returns a pointer whose structure is mk of the operand structures (C13_refine) - so results are functions of operand structures only, which is what the tree model of C02-C07 assumes. '
           'Partial: that every public operation is a client of this ADT is checked, not proved: a source lint (nodes touched only in size/mk_choice/mk_const/find/new; Choice allocated only in mk_choice/From) plus the dynamic sweep of suite S-hist after every step of every history (fresh-environment re-run identical, all old handles unchanged, Rc::ptr_eq of every reachable node with its table entry).',
    'Trusted: Coq kernel; extraction + ocamlopt; glue. The Heap model abstracts FxHashMap<BDD, Rc<BDD>> as an association list keyed by structure and Rc pointers as addresses; hashing itself (derive(Hash), FxHasher) is not modelled. Operations-are-ADT-clients is established by lint and run-time check only.')
+
+_t('C14', 'Theorems about the export functions as lists of (structure, label, structure): the node list has no repetition under every filter (C14_nodes_once); with filter Any every edge joins declared nodes (C14_edges_declared) and following from the root the edge labelled with each tested variable\'s value reaches the leaf beval (C14_walk: the graph denotes the same function); '
+          'with filter True/False exactly the nodes and edges of the Any export minus the hidden leaf and the edges into it remain (C14_filter_nodes, C14_filter_edges); every syntax node is determined by its label and its ordered edge labels (C14_tree_node) and the root has no parent. Node identity in the model is the structure; that the real ids (allocation addresses) coincide with structure is C13. '
+          'Correspondence: the real DOT text is parsed back (own reader incl. Rust escape_default un-escaping and the label grammar) and node/edge sets and read-back term are compared with the model on all 3-variable functions x 3 filters, a stride of 4-variable ones, random named diagrams and random syntax trees.',
+   'Trusted: Coq kernel; extraction + ocamlopt; glue, in particular the DOT reader of the harness (statement syntax of the dot crate, escape_default un-escaping, label grammar of parser_io.rs). The dot crate itself and its escaping are not modelled. Reference names are not distinguished by the model (a reference carries no payload).')
